@@ -131,3 +131,95 @@ Theorem C11_names_raw_irrelevant :
     format_ident to_snake pre suf {| id_raw := r2; id_name := n |}.
 Proof. exact Proofs.format_ident_raw_irrelevant. Qed.
 Print Assumptions C11_names_raw_irrelevant.
+
+(* ---- growth round *)
+
+Theorem C11_state_closed_form :
+  forall ap e st,
+    new_state ap e = Some st ->
+    st_default st = spec_defaults e /\
+    Forall (fun vs => vs_info vs = spec_info (spec_defaults e) (v_attr (vs_variant vs))) (st_vstates st).
+Proof. exact Proofs.state_closed_form. Qed.
+Print Assumptions C11_state_closed_form.
+
+Theorem C11_selection_rule_anchored :
+  forall ap e st eps vs,
+    new_state ap e = Some st -> e_attr e = Some eps -> has PIgnore eps = false -> In vs (st_vstates st) ->
+    let ps := match v_attr (vs_variant vs) with Some ps => ps | None => [] end in
+    fi_enabled (vs_info vs) = negb (has PIgnore ps) /\
+    fi_ref (vs_info vs) = has PRef eps || has PRef ps /\
+    fi_mut (vs_info vs) = has PRefMut eps || has PRefMut ps /\
+    fi_owned (vs_info vs) = has POwned eps || has POwned ps || negb (owned_quirk e).
+Proof. exact Proofs.selection_rule_anchored. Qed.
+Print Assumptions C11_selection_rule_anchored.
+
+Theorem C11_unwrap_accessor_iff :
+  forall (to_snake : str -> str) pre e st fs vs m,
+    NoDup (names e) -> new_state ap_refs e = Some st -> expand_unwrap_like to_snake pre e = EOk fs ->
+    In vs (enabled_vstates st) ->
+    ((exists f, In f fs /\ vp_ident (uw_pat f) = v_ident (vs_variant vs) /\ uw_mode f = m)
+     <-> mode_flag m (spec_defaults e) = true).
+Proof. exact Proofs.unwrap_accessor_iff. Qed.
+Print Assumptions C11_unwrap_accessor_iff.
+
+Theorem C11_is_variant_partition :
+  forall (to_snake : str -> str) e fs v,
+    NoDup (names e) -> e_attr e = None -> Forall (fun vr => v_attr vr = None) (e_variants e) ->
+    expand_is_variant to_snake e = EOk fs -> wf_value e v ->
+    map (fun f => vp_ident (if_pat f)) fs = map v_ident (e_variants e) /\
+    length (filter (fun f => eval_is e f v) fs) = 1.
+Proof. exact Proofs.is_variant_partition. Qed.
+Print Assumptions C11_is_variant_partition.
+
+Theorem C11_failed_block_partition :
+  forall ap e st m v,
+    NoDup (names e) -> new_state ap e = Some st -> wf_value e v ->
+    length (filter (fun p => is_some (match_vpat (e_variants e) m p v)) (failed_block st)) = 1.
+Proof. exact Proofs.failed_block_partition. Qed.
+Print Assumptions C11_failed_block_partition.
+
+Theorem C11_try_into_owned_default_refuted :
+  exists e im v vr, wf_enum e /\ wf_value e v /\ nth_error (e_variants e) (tag v) = Some vr /\ v_attr vr = None /\
+    map f_ty (v_fields vr) = ti_types im /\ ti_mode im = MMove /\
+    (exists ims, expand_try_into e = EOk ims /\ In im ims) /\
+    eval_try_from e im v = IErr (Whole MMove v).
+Proof. exact Proofs.try_into_owned_default_refuted. Qed.
+Print Assumptions C11_try_into_owned_default_refuted.
+
+Theorem C11_failure_messages :
+  forall (to_snake : str -> str) ename pre e fs f x vr v,
+    wf_enum e -> expand_unwrap_like to_snake pre e = EOk fs -> In f fs ->
+    nth_error (e_variants e) x = Some vr -> vp_ident (uw_pat f) = v_ident vr -> wf_value e v -> tag v <> x ->
+    exists vr', nth_error (e_variants e) (tag v) = Some vr' /\
+      unwrap_message ename (eval_unwrap e f v) = Some (panic_msg ename (uw_name f) (v_ident vr')) /\
+      try_unwrap_message ename (eval_try_unwrap e f v) = Some (try_unwrap_error_display ename (uw_name f) (v_ident vr')).
+Proof. exact Proofs.unwrap_failure_message. Qed.
+Print Assumptions C11_failure_messages.
+
+Theorem C11_try_into_names_listed :
+  forall e st ims im,
+    new_state ap_refs e = Some st -> expand_try_into e = EOk ims -> In im ims ->
+    ti_variant_names im =
+    map (fun vs => v_ident (vs_variant vs)) (filter (in_group (ti_mode im, ti_types im)) (enabled_vstates st)).
+Proof. exact Proofs.try_into_names_listed. Qed.
+Print Assumptions C11_try_into_names_listed.
+
+Theorem C11_attr_syntax_flat :
+  forall allowed items i,
+    parse_items allowed None items i =
+    match flatten_items items with Some ps => apply_params allowed ps i | None => None end.
+Proof. exact Proofs.parse_items_flat. Qed.
+Print Assumptions C11_attr_syntax_flat.
+
+Theorem C11_get_meta_info_rich_lower :
+  forall allowed attrs,
+    existsb (param_eqb PIgnore) allowed = true ->
+    get_meta_info_rich allowed attrs =
+    match lower_attrs attrs with Some a => get_meta_info allowed a | None => None end.
+Proof. exact Proofs.get_meta_info_rich_lower. Qed.
+Print Assumptions C11_get_meta_info_rich_lower.
+
+Theorem C11_lower_rich_of_attr :
+  forall a, lower_attrs (rich_of_attr a) = Some a.
+Proof. exact Proofs.lower_rich_of_attr. Qed.
+Print Assumptions C11_lower_rich_of_attr.
